@@ -3193,6 +3193,65 @@ def gen_gene_attributes():
            "def EXONS_KEY : String := " + _lean_str(ek[0]),
            "\nend IsoVerif.Gen\n"]
     return "\n".join(out), info
+def gen_sample_names():
+    """C10 (experiment names): the test that makes the description parsers give up renaming a duplicate experiment
+    name.  Both `InputDataStorage.get_samples_from_yaml` and `get_samples_from_file` must contain exactly one
+
+        if current_sample_name in experiment_names:
+            new_sample_name = self.experiment_prefix + str(current_index)
+            if <TEST>:
+                logger.critical(...); exit(-1)
+            logger.warning(...)
+            current_sample_name = new_sample_name
+
+    and <TEST> is rendered as "equal" (`current_sample_name == new_sample_name`: the generated name is compared with
+    the duplicate only) or "taken" (`new_sample_name in experiment_names`, alone or or-ed with the equality: the
+    generated name must be free).  Any other shape fails loudly."""
+    rel = "src/input_data_storage.py"
+    tree = parse(rel)
+    rows = []
+    for fname in ("get_samples_from_yaml", "get_samples_from_file"):
+        fn = find_def(tree, fname, cls="InputDataStorage")
+        hits = [n for n in ast.walk(fn) if isinstance(n, ast.If)
+                and ast.unparse(n.test) == "current_sample_name in experiment_names"]
+        if len(hits) != 1:
+            raise TranslationError("%s: expected one `if current_sample_name in experiment_names:`, found %d" % (fname, len(hits)))
+        body = hits[0].body
+        if hits[0].orelse:
+            raise TranslationError("%s: the duplicate-name test has an else branch" % fname)
+        if not body or not (isinstance(body[0], ast.Assign) and ast.unparse(body[0]) ==
+                            "new_sample_name = self.experiment_prefix + str(current_index)"):
+            raise TranslationError("%s: the generated name is no longer `self.experiment_prefix + str(current_index)`" % fname)
+        rest = body[1:]
+        if not rest or not isinstance(rest[0], ast.If) or rest[0].orelse:
+            raise TranslationError("%s: no `if <test>: exit` after the generated name" % fname)
+        guard = rest[0]
+        exits = [n for n in ast.walk(guard) if isinstance(n, ast.Call) and isinstance(n.func, ast.Name) and n.func.id == "exit"]
+        others = [st for st in guard.body if not (isinstance(st, ast.Expr) and isinstance(st.value, ast.Call))]
+        if len(exits) != 1 or others:
+            raise TranslationError("%s: the guarded block is not `logger.critical(...); exit(...)`" % fname)
+        tail = [st for st in rest[1:] if not (isinstance(st, ast.Expr) and isinstance(st.value, ast.Call)
+                                             and ast.unparse(st.value.func).startswith("logger."))]
+        if len(tail) != 1 or ast.unparse(tail[0]) != "current_sample_name = new_sample_name":
+            raise TranslationError("%s: the renaming is no longer `current_sample_name = new_sample_name`" % fname)
+        parts = [ast.unparse(v) for v in guard.test.values] if isinstance(guard.test, ast.BoolOp) and isinstance(guard.test.op, ast.Or) \
+            else [ast.unparse(guard.test)]
+        eq = {"current_sample_name == new_sample_name", "new_sample_name == current_sample_name"}
+        taken = "new_sample_name in experiment_names"
+        if all(x in eq for x in parts):
+            kind = "equal"
+        elif taken in parts and all(x in eq or x == taken for x in parts):
+            kind = "taken"
+        else:
+            raise TranslationError("%s: unsupported test before exit: %s" % (fname, ast.unparse(guard.test)))
+        # the name test must come before the name is used: `current_index += 1` follows the outer `if`
+        rows.append((fname, kind))
+    out = ["-- GENERATED by harness/translate.py -- do not edit", "namespace IsoVerif.Gen", "",
+           "/-- per description parser: the test guarding `exit(-1)` once an experiment name is found in `experiment_names`",
+           "    (\"equal\" = `current_sample_name == new_sample_name`, \"taken\" = `new_sample_name in experiment_names`) -/",
+           "def rename_exit_test : List (String × String) := [" + ", ".join('("%s", "%s")' % r for r in rows) + "]",
+           "", "end IsoVerif.Gen", ""]
+    return "\n".join(out), {"rename_exit_test": dict(rows)}
 
 
 GENERATORS = [("Prims", gen_prims), ("Enums", gen_enums), ("EventClasses", gen_event_classes),
@@ -3203,6 +3262,7 @@ GENERATORS = [("Prims", gen_prims), ("Enums", gen_enums), ("EventClasses", gen_e
               ("CombineTables", gen_combine_tables),   # C02 (combine_counts protocol)
               ("CacheProtocol", gen_cache_protocol),   # C20
               ("SampleState", gen_sample_state),       # C10
+              ("SampleNames", gen_sample_names),       # C10 (experiment names)
               ("ReadGroups", gen_read_groups),         # C09
               ("CigarClasses", gen_cigar_classes),    # C16
               ("Resolver", gen_resolver),             # C08
